@@ -276,3 +276,23 @@ Theorem fbur_is_source s x y w h inc :
   fbur s x y w h inc =
   pack fmt_rfb_RFBClient_framebufferUpdateRequest_0 (map VI (gen_fbur_fields (cs_width s) (cs_height s) x y w h inc)).
 Proof. unfold fbur, framebufferUpdateRequest, gen_fbur_fields. destruct w, h; reflexivity. Qed.
+
+(** ** the exit status of vncdo: what each reactor event leaves in reactor.exit_status is the source's own decision
+    (VNCDoCLIFactory.clientConnectionLost / clientConnectionFailed / error / done, build_tool's initial value) *)
+From VD Require Import Model.Exit.
+Theorem exit_status_is_source s e :
+  x_status x0 = gen_status_initial /\
+  xstep s e =
+  if x_stopped s then s
+  else match e with
+       | XConnFailed => done s gen_status_failed
+       | XCompleted => mk_x (x_status s) true (x_stopping s) (x_stopped s)
+       | XLostClean => done s (gen_status_lost true (x_completed s))
+       | XLostError => done s (gen_status_lost false (x_completed s))
+       | XTimeout => done s gen_status_error
+       | XStop => if x_stopping s then mk_x (x_status s) (x_completed s) true true else s
+       end.
+Proof.
+  split; [reflexivity|]. unfold xstep. destruct (x_stopped s); [reflexivity|].
+  destruct e; try reflexivity. unfold gen_status_lost. cbn [andb]. destruct (x_completed s); reflexivity.
+Qed.
